@@ -22,7 +22,7 @@ SPECS = {
     "C17": dict(
         family="box", lean_module="BumpVerif.Props.C17", level="proof",
         fields=_FIELDS, nontrivial_ops=[o for o in _OPS_ALL if o not in ("read", "new_str", "default_str")],
-        thorough_scale=20, timeout=240, trusted_extra=BOX_TRUSTED,
+        thorough_scale=60, timeout=600, trusted_extra=BOX_TRUSTED,
         partial=["delegation clause (compare/hash/format/iterate/poll as the pointee): proved for the regenerated table of method bodies (each is literally a forward, as classified by the translator tools/extract_box.py, which is trusted); the pointee results themselves are sampled against std::boxed::Box"],
         explanation="Theorems about the Lean ownership machine of boxed.rs (Own invariant over all programs, exactly-one drop, transfers "
                     "without drop, downcast by tag, order-preserving conversions, arena untouched) + differential run: every generated "
@@ -38,7 +38,7 @@ SPECS = {
              "into_boxed_slice", "from_vec", "slice_to_vec", "end", "driver"],
         nontrivial_ops=["drop", "into_inner", "into_raw", "from_raw", "leak", "into_boxed_slice", "from_vec", "slice_to_vec", "arr_to_slice", "slice_to_arr"],
         box_jobs=[("general", 800, 40), ("convert", 800, 40), ("zst", 400, 40), ("any", 200, 40)],
-        thorough_scale=20, timeout=240, trusted_extra=BOX_TRUSTED,
+        thorough_scale=60, timeout=600, trusted_extra=BOX_TRUSTED,
         explanation="Box part of C15: theorems never_dropped_twice, five_classes, box_drop, transfers_run_no_destructor, "
                     "escaped_and_leaked_not_dropped of Props/C17.lean; drop ledger of the real crate compared with std's and the model's "
                     "after every call and at the end of the program.",
@@ -49,7 +49,7 @@ SPECS = {
         fields=["res", "owned", "drops", "moved"], ops=["drop", "end", "driver"],
         nontrivial_ops=["drop"],
         box_jobs=[("panics", 2000, 40)],
-        thorough_scale=20, timeout=240, trusted_extra=BOX_TRUSTED,
+        thorough_scale=60, timeout=600, trusted_extra=BOX_TRUSTED,
         explanation="Box part of C16: theorem slice_drop_with_panicking_destructor (every panic position) + injected destructor panics at "
                     "every element index of boxed slices / arrays / Vecs / boxes on the real crate, ledger checked after catch_unwind "
                     "and again at the end of the program.",
